@@ -13,7 +13,7 @@ def main():
   ids = [json.loads(l)['id'] for l in open(os.path.join(core.VERIF, 'properties.jsonl'))]
   checks = []
   have = set()
-  for path in sorted(glob.glob(os.path.join(core.VERIF, 'harness', 'props', 'c*.py'))):
+  for path in sorted(glob.glob(os.path.join(core.VERIF, 'harness', 'props', 'c[0-9][0-9].py'))):
     try:
       mod = importlib.import_module('harness.props.' + os.path.basename(path)[:-3])
     except Exception as e:
